@@ -610,8 +610,21 @@ class HistoryRunner:
         self.log.append(("read", name))
         want = self.ref.value(name)
         self.c("reads")
+        # the documented read accessors: state[name], get_tensor_value(name), get_tensor_values([...]) (plain tensors: weighted values
+        # come back as weight * zero-filled value)
+        api = ("getitem", "getitem", "getitem", "tensor", "tensors")[int(self.rng.integers(5))] if hasattr(self.real, "get_tensor_value") else "getitem"
         try:
-            got = self.real[name]
+            if api == "getitem":
+                got = self.real[name]
+            elif api == "tensor":
+                got = self.real.get_tensor_value(name)
+            else:
+                got = self.real.get_tensor_values([name])[0]
+            if api != "getitem":
+                self.c("reads_through_tensor_accessors")
+                if isinstance(want, WeightedTensor):
+                    self.c("reads_of_weighted_values_through_tensor_accessors")
+                    want = want.weighted_value
         except Exception as e:
             if isinstance(want, Raised):
                 if type(e) is type(want.exc):
@@ -776,6 +789,18 @@ class HistoryRunner:
             elif not same(v, w):
                 self.viol(f"state/stale-cache-after-{self._last_op()}", f"[{tag}] cached '{k}' differs from from-scratch value", self.log,
                           got=brief(v), want=brief(w))
+        # plain-tensor accessor on the weighted entries that are cached: must agree with the cache it is derived from
+        if hasattr(state, "get_tensor_value"):
+            for k, v in list(state._values.items()):
+                if isinstance(v, WeightedTensor) and not self._forbidden_now(k):
+                    try:
+                        t = state.get_tensor_value(k)
+                    except Exception:
+                        continue
+                    self.c("tensor_accessor_entries_checked")
+                    if not same(t, v.weighted_value):
+                        self.viol(f"state/tensor-accessor-stale-after-{self._last_op()}", f"[{tag}] get_tensor_value('{k}') differs from the weighted value held by the state",
+                                  self.log, got=brief(t), want=brief(v.weighted_value))
         self.c("cache_entries_checked", n_checked)
         self.c("quiescent_checks")
 
